@@ -5,6 +5,7 @@ The simulator varies the *configuration* of the run: every one of the 144 option
 for each sampled workload file, plus the input channel (disk read through the open seam vs argv)."""
 import copy
 import itertools
+import json
 
 from .. import core
 from ..framework import Engine, Violation, classify
@@ -47,15 +48,31 @@ def argv_of(v, name, content):
 
 
 def file_result(o):
-    """(verdict, [(level, code, line, col)...], texts) of a single-file CLI op, or None if no verdict was reached."""
+    """(verdict, [(level, code, line, col)...], texts) of a single-file CLI op as *printed* (the report text is
+    parsed, in whichever format was requested), or None if no verdict was reached."""
     if o.get("end") != "exit" or not o.get("reports"):
         return None
-    fs = o["reports"][0]["files"]
+    rep = o["reports"][0]
+    fs = rep["files"]
     if len(fs) != 1 or fs[0]["diags"] is None:
         return None
-    d = fs[0]["diags"]
-    return (fs[0]["status"], [(x[0], x[1], x[3][0][0] if x[3] else None, x[3][0][1] if x[3] else None) for x in d],
-            [strip_ansi(x[2]) for x in d])
+    text = rep["text"]
+    try:
+        if rep["format"].startswith("JSON"):
+            doc = json.loads(text)
+            jf = doc["files"]
+            if len(jf) != 1:
+                return ("?", [("?", f"{len(jf)} files in the JSON document", None, None)], [])
+            d = [(e["level"], e["name"], e["highlights"][0]["lineno"] if e["highlights"] else None,
+                  e["highlights"][0]["column"] if e["highlights"] else None) for e in jf[0]["errors"]]
+            return (jf[0]["status"], d, [e["text"] for e in jf[0]["errors"]])
+        from .c08 import parse_human
+        hf = parse_human(text)
+        if len(hf) != 1:
+            return ("?", [("?", f"{len(hf)} verdict lines in the report", None, None)], [])
+        return (hf[0][1], [(lv, c, ln, co) for lv, c, ln, co, t in hf[0][2]], [t for lv, c, ln, co, t in hf[0][2]])
+    except Exception as e:  # noqa - unparsable report text is a finding of its own, reported as a differing result
+        return ("?", [("?", f"report not parseable: {type(e).__name__}", None, None)], [])
 
 
 class C16(Engine):
